@@ -26,6 +26,7 @@ ASSUMPTIONS = [
 ]
 
 RULES = {
+    "C01.DONE": "after a child's result the family's completion test (counter == 0 / == len, all slots ready, all inputs ended) is evaluated before Pending can be returned",
     "C01.REG": "every child poll and every Poll::Pending value in a sub-waker poll body is dominated by set_waker(cx.waker()) with cx the caller's context",
     "C01.ROUTE": "each child-poll site passes the caller's cx (race, race_ok, chain, wait_until, adapter futures) or Context::from_waker(wakers.get(i)) with i the polled child's own index",
     "C01.FWD": "Wake::wake of the inline wakers: lock, set_ready(self.id); on the 'was clear' edge every path calls wake/wake_by_ref on parent_waker() of the same readiness before returning",
@@ -59,6 +60,8 @@ def run(ctx):
             rule_rearm(ctx, u)
         for u in pts + aux:
             rule_route_pass(ctx, u)
+        for u in units:
+            rule_done(ctx, M, u)
         rule_insert_arm(ctx, M)
         rule_handout(ctx, M, units)
         if std:
@@ -362,3 +365,19 @@ def live_premises(ctx, M, units, rule_id, with_globals=True):
 
 
 PASS_FAMILIES = ("race", "race_ok", "chain")
+
+
+def rule_done(ctx, M, u):
+    """C01.DONE - a combinator whose last missing piece just arrived must not return Pending (nobody
+    would wake it again): after a child's result, the family's completion test is evaluated before
+    Pending can be returned.  Delegates to the result-shape rules of the family."""
+    from . import joinlike, c07, c08, c09
+    if u.family in ("join", "try_join"):
+        with ctx.renamed({"X.CNT": "C01.DONE"}):
+            joinlike.rule_cnt(ctx, M, u, "X.CNT")
+    elif u.family == "merge":
+        with ctx.renamed({"C08.END": "C01.DONE"}):
+            c08.rule_end(ctx, M, u)
+    elif u.family == "zip":
+        with ctx.renamed({"C09.EMIT": "C01.DONE", "C01.REARM": "C01.REARM"}):
+            c09.rule_emit(ctx, M, u)
